@@ -1,0 +1,18 @@
+//go:build verif
+
+package crypto
+
+// Verification hook, only compiled with the "verif" build tag.
+
+// VerifSetCounters sets the frame counters of a session created by this package, so
+// that a simulator can examine the framing at counters which are not reachable by sending
+// frames (beyond 2^32). It reports whether c is such a session.
+func VerifSetCounters(c Cryptographer, encryptCount, decryptCount uint64) bool {
+	s, ok := c.(*secureSession)
+	if !ok {
+		return false
+	}
+	s.encryptCount = encryptCount
+	s.decryptCount = decryptCount
+	return true
+}
